@@ -361,12 +361,29 @@ func leafTermsFrozen(r *Run, rule string) {
 						allConst = false
 					}
 				}
+				var other []string
+				eidx, _ := errIndex(f.Signature)
 				for _, a := range P.RetAlternatives(f, idx) {
-					if canonAtom(a.T.String()) == m[2] {
+					at := canonAtom(a.T.String())
+					if at == m[2] {
 						found = true
+						continue
 					}
+					if at == "true" || at == "false" {
+						continue
+					}
+					if eidx >= 0 && eidx != idx {
+						if c, _ := P.retClass(a.Ret, eidx); c == "nonnil" {
+							continue // a refusal, not an answer
+						}
+					}
+					other = append(other, oneLine(at)+" under {"+strings.Join(atomStrings(a.G), " ; ")+"}")
 				}
 				compared++
+				if nret > 0 && found && len(other) > 0 && !allConst {
+					changed++
+					r.Viol(rule, "leaf-branched:"+n, P.Pos(f.Pos()), n+" was a branch-free helper returning "+oneLine(m[2])+" ; it now also answers "+strings.Join(other, " / ")+": callers on that branch silently get a different value")
+				}
 				if nret > 0 && !found && !allConst {
 					changed++
 					r.Viol(rule, "leaf-branched:"+n, P.Pos(f.Pos()), n+" was a branch-free helper returning "+oneLine(m[2])+" ; it now has branches and none of its returns yields that value any more: every caller silently gets the new meaning")
